@@ -142,7 +142,7 @@ class BldBatch:
         for sid in sids:
             lo = self.lang(sid, "go")
             for o in lo["objects"]:
-                if o["kind"] == "struct":
+                if o.get("ctor"):
                     imports.add('\t%s "%s/%s"' % (o["gopkg"], self.package_root, o["gopkg"]))
                     tl.append('\t"%s.%s": reflect.ValueOf(%s.New%s),' % (o["gopkg"], o["go"], o["gopkg"], o["go"]))
             for b in lo["names"]:
@@ -273,8 +273,8 @@ class BldBatch:
         keep += src[src.index("func errPaths"):src.index("func runProg")]
         gopkgs = sorted({o["gopkg"] for sid in self.ok_sids() for o in self.lang(sid, "go")["objects"]})
         head = ("package main\n\nimport (\n\t\"bufio\"\n\t\"encoding/json\"\n\t\"fmt\"\n\t\"os\"\n\t\"reflect\"\n\t\"sort\"\n"
-                "\t\"strconv\"\n\t\"strings\"\n\t\"time\"\n)\n\n"
-                "type buildRes struct {\n\tS string `json:\"s\"`\n\tPaths []string `json:\"paths\"`\n\tDump any `json:\"dump\"`\n"
+                "\t\"strconv\"\n\t\"strings\"\n\t\"time\"\n\t\"unsafe\"\n)\n\n"
+                "type buildRes struct {\n\tS string `json:\"s\"`\n\tErrors []string `json:\"errors\"`\n\tPaths []string `json:\"paths\"`\n\tDump any `json:\"dump\"`\n"
                 "\tJSON json.RawMessage `json:\"json\"`\n}\n\nvar _ = sort.Strings\nvar _ = strconv.Itoa\nvar _ = strings.Index\n"
                 "var _ = fmt.Sprint\nvar exprs = map[int]func() reflect.Value{}\n\n")
         main = ("func main() {\n\tout := bufio.NewWriter(os.Stdout)\n\tdefer out.Flush()\n\tn := %d\n"
@@ -510,9 +510,14 @@ class ArgGen:
         raise Unsupported("scalar kind " + k)
 
     # ---- everything
-    def gen(self, t, want="valid", depth=0):
+    def gen(self, t, want="valid", depth=0, plain=False):
+        """plain: the value sits behind a reference the builder formatter does not look through (an alias of an
+        array / map): no builders inside"""
         r = self.rng
         k = t["Kind"]
+        if depth > self.max_depth + 12:
+            raise Unsupported("nesting too deep")
+        deep = depth > self.max_depth + 2
         if k == "scalar":
             v, viol = self.scalar(t, violate=(want == "bound"))
             return {"v": v}, ({"bound"} if viol else set())
@@ -523,56 +528,59 @@ class ArgGen:
         if k == "array":
             et = t["Array"]["ValueType"]
             n = r.choice([0, 1, 2, 3]) if want == "valid" else r.choice([1, 2, 3])
+            if deep and want == "valid":
+                n = 0
             pos = r.randrange(n) if n else -1
             items, facts = [], set()
             for i in range(n):
                 w = "valid"
                 if i == pos:
                     w = {"elem": "bound", "nested": "nested", "nested-default": "nested-default", "alias": "alias"}.get(want, "valid")
-                a, f = self.gen(et, w, depth + 1)
+                a, f = self.gen(et, w, depth + 1, plain)
                 items.append(a)
                 facts |= {("elem" if x == "bound" else x) for x in f}
-            if self.ir.has_builder(t):
+            if self.ir.has_builder(t) and not plain:
                 return {"l": items}, facts
             return {"v": [self._plain(a) for a in items]}, facts
         if k == "map":
             vt = t["Map"]["ValueType"]
             if t["Map"]["IndexType"]["Kind"] != "scalar" or t["Map"]["IndexType"]["Scalar"]["ScalarKind"] != "string":
                 raise Unsupported("map index")
-            keys = r.sample(["k", "a", "b", "n", "key with space", "Z"], r.choice([0, 1, 2]) if want == "valid" else r.choice([1, 2]))
+            keys = r.sample(["k", "a", "b", "n", "key with space", "Z"],
+                            (0 if deep else r.choice([0, 1, 2])) if want == "valid" else r.choice([1, 2]))
             pos = r.choice(keys) if keys else None
             items, facts = [], set()
             for key in keys:
                 w = "valid"
                 if key == pos:
                     w = {"elem": "bound", "nested": "nested", "nested-default": "nested-default", "alias": "alias"}.get(want, "valid")
-                a, f = self.gen(vt, w, depth + 1)
+                a, f = self.gen(vt, w, depth + 1, plain)
                 items.append((key, a))
                 facts |= {("elem" if x == "bound" else x) for x in f}
-            if self.ir.has_builder(t):
+            if self.ir.has_builder(t) and not plain:
                 return {"m": items}, facts
             return {"v": {k_: self._plain(a) for k_, a in items}}, facts
         if k == "disjunction":
             bs = t["Disjunction"]["Branches"]
-            return self.gen(r.choice(bs), want if want in ("nested", "nested-default") else "valid", depth + 1)
+            return self.gen(r.choice(bs), want if want in ("nested", "nested-default") else "valid", depth + 1, plain)
         if k == "ref":
             rt = self.ir.resolve(t)
             if rt["Kind"] == "ref":
                 raise Unsupported("dangling reference")
             if rt["Kind"] == "struct":
                 bs = self.ir.builders_for_ref(t)
-                if bs:
+                if bs and not plain:
                     return self.gen_builder(bs[0], want, depth + 1)
                 if self.lang != "go":
                     raise Unsupported("plain struct argument")
                 return {"v": self._plain_struct(rt, depth + 1)}, set()
             if rt["Kind"] == "disjunction":
-                return self.gen(rt, want, depth + 1)
+                return self.gen(rt, want, depth + 1, plain)
             # alias of a scalar / enum / array / map: constraints behind the alias
             if rt["Kind"] == "scalar":
                 v, viol = self.scalar(rt, violate=(want in ("alias", "bound")))
                 return {"v": v}, ({"alias"} if viol else set())
-            a, f = self.gen(rt, want, depth + 1)
+            a, f = self.gen(rt, want, depth + 1, True)
             return a, f
         raise Unsupported("type kind " + k)
 
@@ -586,7 +594,7 @@ class ArgGen:
         for f in rt["Struct"]["Fields"]:
             if not f["Required"] and (depth >= self.max_depth or self.rng.random() < 0.5):
                 continue
-            a, _ = self.gen(f["Type"], "valid", depth + 1)
+            a, _ = self.gen(f["Type"], "valid", depth + 1, True)
             out[f["Name"]] = self._plain(a)
         return out
 
@@ -604,6 +612,8 @@ class ArgGen:
     def gen_builder(self, b, want="valid", depth=0):
         """-> ({"b": program}, facts): a program over builder b"""
         r = self.rng
+        if depth > self.max_depth + 4:
+            raise Unsupported("required nesting too deep")
         pkg, name = b["For"]["SelfRef"]["ReferredPkg"], b["Name"]
         facts = set()
         ctor = []
@@ -622,7 +632,7 @@ class ArgGen:
             must = self.must_call(o)
             if o is not fault_opt:
                 if must and skip_must and r.random() < 0.8:
-                    facts.add("nested")
+                    facts.add("nested-default")
                     continue
                 if depth >= self.max_depth and not must:
                     continue
@@ -931,7 +941,10 @@ def plain(d, fields_of=None):
 
 
 def _empty(x):
-    return x is None or x == [] or x == {}
+    """nil, an empty collection, or an object all of whose members are empty (`{}` on the wire)"""
+    if isinstance(x, dict):
+        return all(_empty(v) for v in x.values())
+    return x is None or x == []
 
 
 class Env:
@@ -1095,6 +1108,11 @@ def path_under(err_path, prefix):
 
 
 # ====================================================================== Coq evaluation
+PREAMBLE = ("From Coq Require Import List String ZArith Bool.\nFrom Cog Require Import Model.IR Model.Json Model.Builders "
+            "Model.GoSem Model.BuilderEval Model.PyBuilderEval %s.\nImport ListNotations.\nLocal Open Scope string_scope.\n"
+            "Definition A0 := attrs0.\n")
+
+
 def eval_cases(ctx, name, imports, env_defs, cases, case_type, defs, shard=40, timeout=1800):
     """cases: [(env key, gallina term)]; env_defs: {env key: Gallina definitions text}; like gencode.eval_cases"""
     shards = [list(range(i, min(i + shard, len(cases)))) for i in range(0, len(cases), shard)]
@@ -1105,7 +1123,7 @@ def eval_cases(ctx, name, imports, env_defs, cases, case_type, defs, shard=40, t
         for i in ids:
             if cases[i][0] not in keys:
                 keys.append(cases[i][0])
-        pre = gencode.PREAMBLE % imports + "".join(env_defs[x] for x in keys)
+        pre = PREAMBLE % imports + "".join(env_defs[x] for x in keys)
         pre += "Definition cases : list (%s) :=\n[%s].\n" % (case_type, ";\n".join(cases[i][1] for i in ids))
         pre += ("Fixpoint indices_from {A} (f : A -> bool) (l : list A) (i : nat) : list nat :=\n"
                 "  match l with [] => [] | x :: r => if f x then i :: indices_from f r (S i) else indices_from f r (S i) end.\n")
